@@ -1,6 +1,7 @@
 package main
 
 import (
+	"strings"
 	"go/ast"
 	"go/token"
 	"go/types"
@@ -343,7 +344,9 @@ func rulesC13(c *Ctx) {
 			okOrd := false
 			for _, cv := range clg.callVertices(connClose) {
 				for _, call := range cl.AllCalls(cl.Body, false) {
-					if cl.IsField(call.Fun, ka) && clg.ReachableFrom(clg.VertexOf(call))[cv] && !clg.ReachableFrom(cv)[clg.VertexOf(call)] {
+					// a deferred call runs when Close returns, i.e. after conn.Close: that is not "first"
+					_, deferred := cl.ParentOf(call).(*ast.DeferStmt)
+					if cl.IsField(call.Fun, ka) && !deferred && clg.ReachableFrom(clg.VertexOf(call))[cv] && !clg.ReachableFrom(cv)[clg.VertexOf(call)] {
 						// every path to conn.Close on which a cancel function exists passes the call
 						okOrd = true
 					}
@@ -353,6 +356,7 @@ func rulesC13(c *Ctx) {
 		}
 	})
 
+	c.Import("R-C13-7", "keep-alive ends silently when the peer reports ping as unsupported, also when the report arrives as an HTTP error status with a JSON-RPC body: the streamable client wraps the peer's error with %w, so errors.Is(err, ErrMethodNotFound) still sees -32601", "C19", "R-C19-9", func(k string) bool { return strings.Contains(k, "peer-error-wrapped") || strings.Contains(k, "errors wrapping both") })
 	c.Rule("R-C13-5", "the streamable client marks a message that did not reach the server as rejected (wrapping jsonrpc2.ErrRejected with %w), so a failed ping POST is a miss and not a broken writer: the connection survives to the next ping", func() {
 		wr := c.Fn(pM, "streamableClientConn", "Write")
 		rej := c.Obj(pJ, "ErrRejected")
